@@ -25,6 +25,8 @@ units = [
     u("C07_expected_int", "harness/C07_expected.cpp", 0),
     u("C07_expected_tracked", "harness/C07_expected.cpp", 1),
     u("C07_select", "harness/C07_select.cpp", shards=(1, 1), fl=FL1),
+    u("C07_unordered", "harness/C07_unordered.cpp", shards=(1, 1), fl=FL1),
+    u("C07_members", "harness/C07_members.cpp", shards=(1, 1), fl=FL),
     u("C07_probe_nullopt_rel", "harness/C07_probe.cpp", probe=1, shards=(1, 1), fl=FL1),
     u("C07_probe_optref_conv", "harness/C07_probe.cpp", probe=2, shards=(1, 1), fl=FL),
     u("C07_probe_visit_ref", "harness/C07_probe.cpp", probe=3, shards=(1, 1), fl=FL1),
@@ -41,7 +43,10 @@ P = dict(
                 "two traces are compared item by item. Scope: optional<int>, optional<tracked copy+move>, optional<tracked move-only> incl. mixed optional<T>/optional<U> "
                 "forms; optional<int&>, optional<int const&>, optional<tracked&> against the model 'a pointer'; variant with 2, 3 and 4 alternatives (trivially copyable and "
                 "not) and a move-only variant, multi-variant visit over every index combination of 2 and 3 variants; expected<int,int>, expected<tracked,tracked2>, unexpected; "
-                "the alternative selected by converting construction/assignment for 416 (variant, argument type) cells and 83 optional<T>/optional<U> conversion cells. "
+                "the alternative selected by converting construction/assignment for 416 (variant, argument type) cells and 83 optional<T>/optional<U> conversion cells; "
+                "all six relations over unordered payloads (NaN, a partially ordered instrumented type whose own <,<=,>,>= calls are counted) for optional, optional<T&> and variant; "
+                "952 cells over payload types whose copy/move constructor, copy/move assignment and destructor are independently trivial or user-provided, comparing the "
+                "special-member call ledger of copy/move assignment, construction, emplace, reset and swap with the std owner of the same payload type. "
                 "Enumerated: every start state x construction form, then every pair (operation, operation) with every argument tuple, plus every chain of d operations whose "
                 "first d-1 are state-changing (d = 3 for optional, optional<T&>, expected; thorough: 4; variant: thorough 3), plus seeded random 50-step histories, "
                 "under ASan+UBSan with contract checks on (thorough: also off). Held means: no trace difference, no sanitizer report and no handler "
